@@ -53,6 +53,8 @@ pub struct BasicCompileContext {
     pub runner: Rc<dyn TRunProgram>,
     pub symbols: HashMap<String, String>,
     pub optimizer: Box<dyn Optimization>,
+    /// How many macro expansions the expression being compiled is the output of.
+    pub macro_depth: usize,
 }
 
 impl BasicCompileContext {
@@ -200,6 +202,7 @@ impl BasicCompileContext {
             runner,
             symbols,
             optimizer,
+            macro_depth: 0,
         }
     }
 }
@@ -244,6 +247,7 @@ impl<'a> CompileContextWrapper<'a> {
             runner,
             symbols: HashMap::new(),
             optimizer,
+            macro_depth: 0,
         };
         let mut wrapper = CompileContextWrapper {
             allocator,
